@@ -80,10 +80,18 @@ func %(fn)s() *Curve {
 	repExt := func(p *te.PointExtended) Rep {
 		return Rep{Sys: "ext", C: []ofield.El{toEl(&p.X), toEl(&p.Y), toEl(&p.Z), toEl(&p.T)}}
 	}
-	cp := te.GetEdwardsCurve()
-	g := &Curve{
-		Name: "%(path)s", Q: fr.Modulus(), Order: new(big.Int).Set(&cp.Order), Cofactor: cp.Cofactor.BigInt(new(big.Int)),
-		A: cp.A.BigInt(new(big.Int)), D: cp.D.BigInt(new(big.Int)), Base: repAff(&cp.Base),
+	var g *Curve
+	if ps, ok := Preset["%(path)s"]; ok {
+		// constants supplied by the caller: the library's lazily initialised curve parameters are NOT touched, so that
+		// the first operation of the process on this package can be observed (C18 first-use check)
+		g = &Curve{Name: "%(path)s", Q: fr.Modulus(), Order: ps.Order, Cofactor: ps.Cofactor, A: ps.A, D: ps.D,
+			Base: Rep{Sys: "aff", C: []ofield.El{{ps.BaseX}, {ps.BaseY}}}}
+	} else {
+		cp := te.GetEdwardsCurve()
+		g = &Curve{
+			Name: "%(path)s", Q: fr.Modulus(), Order: new(big.Int).Set(&cp.Order), Cofactor: cp.Cofactor.BigInt(new(big.Int)),
+			A: cp.A.BigInt(new(big.Int)), D: cp.D.BigInt(new(big.Int)), Base: repAff(&cp.Base),
+		}
 	}
 	g.Lib = func(r Rep) any {
 		switch r.Sys {
